@@ -358,6 +358,29 @@ def fam_fixed(rng, n, max_recs=40):
     return out
 
 
+def fam_fixed_structs(rng, n):
+    """C08 second half: well-formed V5/V7 STRUCTURES (count = number of records, every value within its field) that the
+    harness builds through the public struct fields, exports and parses back"""
+    out = []
+    for _ in range(n):
+        v = rng.choice([5, 7])
+        k = rng.choice([0, 0, 1, 2, 3, 30])
+        if v == 5:
+            hdr = [5, k] + [rnat(rng, w) for w in V5_HDR_W]
+            recs = []
+            for _ in range(k):
+                r = [rnat(rng, w) for w in V5_REC_W]
+                recs.append(r[:14] + [0] + r[14:])            # slot 14 = derived protocol_type (filled in by the harness / driver)
+        else:
+            hdr = [7, k] + [rnat(rng, w) for w in V7_HDR_W]
+            recs = []
+            for _ in range(k):
+                r = [rnat(rng, w) for w in V7_REC_W]
+                recs.append(r[:14] + [0] + r[14:])
+        out.append(("fixed-struct", [{"op": "fixed_roundtrip", "v": v, "hdr": hdr, "recs": recs}]))
+    return out
+
+
 def fam_fixed_protocols(rng):
     out = []
     for v in (5, 7):
@@ -551,6 +574,10 @@ def fam_trunc(rng, n, fracs=None):
                     ops.append(op_parse(pid, msgs=hist, want=[]))
             o = op_parse(0, msgs=pre + [last], want=[])
             o["cutfrac"] = frac
+            if v in (5, 7) and rng.random() < 0.5:
+                # exactly on a record boundary (24 + 48*j / 24 + 52*j) or a byte either side of it
+                o["cutbound"] = rng.randrange(0, 8)
+                o["cutdelta"] = rng.choice([0, 0, 0, 1, 47])
             if v == 9 and rng.random() < 0.5:
                 # just past a flowset boundary: inside the next flowset's 4-byte header
                 o["cutbound"] = rng.randrange(0, 8)
@@ -674,6 +701,16 @@ def fam_unknown_template(rng, n):
             recs = [ip_record(rng, t["fields"]) for _ in range(rng.randrange(1, 4))]
             data = {"ipfix": {"m": {"exportTime": 2, "seq": 2, "odid": 1, "sets": [{"data": {"id": tid, "recs": recs, "pad": ""}}]}}}
             tmsg = {"ipfix": {"m": {"exportTime": 3, "seq": 3, "odid": 1, "sets": [{"templates": {"ts": [t], "pad": ""}}]}}}
+        if proto == 10 and rng.random() < 0.35:
+            # a template record for tid that the parser must REJECT (no usable field) does not make tid known
+            bad_fields = rng.choice([[], [{"typ": 82, "len": 0, "ent": None}], [{"typ": 8, "len": 0, "ent": None}, {"typ": 12, "len": 0, "ent": None}]])
+            bk = rng.choice(["templates", "optTemplates"])
+            bt = {"id": tid, "fields": bad_fields}
+            if bk == "optTemplates":
+                bt["scopeCount"] = 0
+            o = op_parse(0, msgs=[{"ipfix": {"m": {"exportTime": 1, "seq": 1, "odid": 1, "sets": [{bk: {"ts": [bt], "pad": ""}}]}}}], want=[])
+            o["nospec"] = True
+            ops.append(o)
         before = [msg_v5(rng, 1)] if rng.random() < 0.5 else []
         # the unknown data set is not always the first set of its packet: put a template for ANOTHER id
         # and/or a decodable data set in front of it
@@ -972,6 +1009,35 @@ def fam_extremal(rng, tier):
         tm = {"v9": {"m": {"count": 1, "sysUpTime": 1, "unixSecs": 1, "seq": 1, "sourceId": 1, "sets": [{"templates": {"ts": [t], "pad": ""}}]}}}
         dm = {"raw": {"b": hx(b"\x00\x09\x00\x01" + bytes(16) + (256).to_bytes(2, "big") + (body + 4).to_bytes(2, "big") + bytes(body))}}
         out.append(("extremal-v9-huge-record-%d" % nf, [op_new(0), op_parse(0, msgs=[tm], want=[]), op_parse(0, msgs=[dm], want=["export", "common"])]))
+    # (c3) a LARGE template cache built by earlier calls, then small data messages of every kind: the cost of a call
+    #      must not depend on cache entries it does not use
+    ncache = 1500 if tier == "quick" else 4000
+    ops = [op_new(0)]
+    per = 120
+    for base in range(0, ncache, per):
+        ids = list(range(1000 + base, 1000 + min(base + per, ncache)))
+        ip_sets = [{"templates": {"ts": [{"id": i, "fields": [{"typ": 1, "len": 4, "ent": None}, {"typ": 2, "len": 4, "ent": None}, {"typ": 8, "len": 4, "ent": None}, {"typ": 12, "len": 4, "ent": None}]}], "pad": ""}} for i in ids]
+        ip_osets = [{"optTemplates": {"ts": [{"id": 20000 + i, "scopeCount": 1, "fields": [{"typ": 1, "len": 4, "ent": None}, {"typ": 2, "len": 4, "ent": None}, {"typ": 8, "len": 4, "ent": None}, {"typ": 12, "len": 4, "ent": None}]}], "pad": ""}} for i in ids]
+        v9_ts = [{"id": i, "fieldCount": 4, "fields": [{"typ": 1, "len": 4}, {"typ": 2, "len": 4}, {"typ": 8, "len": 4}, {"typ": 12, "len": 4}]} for i in ids]
+        v9_os = [{"id": 20000 + i, "scopeLen": 4, "optLen": 4, "scope": [{"typ": 1, "len": 4}], "opts": [{"typ": 1, "len": 4}]} for i in ids]
+        ops.append(op_parse(0, msgs=[{"ipfix": {"m": {"exportTime": 1, "seq": 1, "odid": 1, "sets": ip_sets + ip_osets}}},
+                                     {"v9": {"m": {"count": 2, "sysUpTime": 1, "unixSecs": 1, "seq": 1, "sourceId": 1, "sets": [{"templates": {"ts": v9_ts, "pad": ""}}, {"optTemplates": {"ts": v9_os, "pad": ""}}]}}}], want=[]))
+        ops[-1]["nospec"] = True
+    rec16 = "00000001000000020a0000010a000002"
+    small = [
+        {"ipfix": {"m": {"exportTime": 2, "seq": 2, "odid": 1, "sets": [{"data": {"id": 1000, "recs": [[{"content": rec16[0:8], "form": "fixed"}, {"content": rec16[8:16], "form": "fixed"}, {"content": rec16[16:24], "form": "fixed"}, {"content": rec16[24:32], "form": "fixed"}]], "pad": ""}}]}}},
+        {"ipfix": {"m": {"exportTime": 2, "seq": 2, "odid": 1, "sets": [{"data": {"id": 21000, "recs": [[{"content": rec16[0:8], "form": "fixed"}, {"content": rec16[8:16], "form": "fixed"}, {"content": rec16[16:24], "form": "fixed"}, {"content": rec16[24:32], "form": "fixed"}]], "pad": ""}}]}}},
+        {"v9": {"m": {"count": 1, "sysUpTime": 2, "unixSecs": 2, "seq": 2, "sourceId": 1, "sets": [{"data": {"id": 1000, "recs": [[rec16[0:8], rec16[8:16], rec16[16:24], rec16[24:32]]], "pad": ""}}]}}},
+        {"v9": {"m": {"count": 1, "sysUpTime": 2, "unixSecs": 2, "seq": 2, "sourceId": 1, "sets": [{"data": {"id": 21000, "recs": [[rec16[0:8], rec16[8:16]]], "pad": ""}}]}}},
+    ]
+    for m in small:
+        o = op_parse(0, msgs=[m], want=["export", "common"])
+        o["nospec"] = True
+        ops.append(o)
+    # many small data sets in one message against the large cache
+    many = {"ipfix": {"m": {"exportTime": 3, "seq": 3, "odid": 1, "sets": [small[1]["ipfix"]["m"]["sets"][0]] * 150 + [small[0]["ipfix"]["m"]["sets"][0]] * 150}}}
+    o = op_parse(0, msgs=[many], want=[]); o["nospec"] = True; ops.append(o)
+    out.append(("extremal-large-cache-%d" % ncache, ops))
     # (d) headers announcing 65535 records / fields over short bodies
     for h in ["0005ffff" + "00" * 20, "0007ffff" + "00" * 20, "0009ffff" + "00" * 16, "000a0014" + "00" * 12 + "0002ffff", "000a0018" + "00" * 12 + "00020008" + "0100ffff",
               "0009000100000000000000000000000000000000" + "00000008" + "0100ffff", "000a001a" + "00" * 12 + "0003000a" + "0100ffffffff"]:
